@@ -113,7 +113,7 @@ class Paths:
                             return self.path(d.ops[k], depth + 1) + suffix
             return "call:%s#%d" % (nm or "indirect", self._callnum.get(id(d), 0))
         if op == "alloca":
-            return "&" + v.v
+            return v.v      # the local itself (an lvalue, like a getelementptr result)
         if op == "phi":
             ps = {self.path(o, depth + 1) for o in d.ops if not (o.kind == "reg" and o.v == v.v)}
             if len(ps) == 1:
@@ -138,7 +138,7 @@ class Paths:
             if b.kind != "reg":
                 return False
             d = self.fn.defs.get(b.v)
-        return d is not None and d.op == "getelementptr"
+        return d is not None and d.op in ("getelementptr", "alloca")
 
 
 _identity_cache = {}
